@@ -204,6 +204,8 @@ def run_family(ctx, plan, replay=None):
             for line in f:
                 if line.strip():
                     traces.append(json.loads(line))
+    for k, t in enumerate(traces):
+        t['cfg'] = dict(t['cfg'], Variant=k)
     if live_cex:
         rep0 = engine.run_driver(ctx, 'csim', live_cex, timeout=900, env=plan.env)
         engine.collect(ctx, rep0, live_cex, 'csim')
